@@ -31,7 +31,7 @@ TOW = [("west_mast", 50.001, 10.002, 5.0), ("hill_top", 50, 10.0005, 7), ("east_
 
 
 def lattice(tier):
-    for nt, ns, threed, vc, dt, ts, forcing in itertools.product((1, 2, 3, 4), (1, 2, 3, 4), (False, True), ("index", "negative", "denormal", "huge", "simple-flx", "near-max"), ("float64", "float32"), ("iso", "index", "width", "epoch", "repeated"), ("ustar", "z0-list", "z0-scalar")):
+    for nt, ns, threed, vc, dt, ts, forcing in itertools.product((1, 2, 3, 4), (1, 2, 3, 4), (False, True), ("index", "negative", "denormal", "huge", "simple-flx", "near-max"), ("float64", "float32"), ("iso", "index", "width", "epoch", "repeated", "zero-later"), ("ustar", "z0-list", "z0-scalar")):
         if forcing == "z0-scalar" and ns != 1:
             continue
         if tier == "quick" and vc != "index" and not (nt in (1, 3) and ns in (1, 2)):
@@ -73,6 +73,9 @@ def build(case):
         # the same label on two steps with different forcing (the repeated hour of a night the clocks go back; a logger that
         # stamps whole minutes): positions, not labels, say which record is which
         met["timestamps"] = (["2024-10-27T02:00", "2024-10-27T02:30", "2024-10-27T02:00", "2024-10-27T02:30", "2024-10-27T03:00", "2024-10-27T03:00"] if case["nt"] % 2 else [7, 7, 8, 8, 8, 9])[:ns]
+    elif case["ts"] == "zero-later":
+        # integer labels with the (falsy) label 0 at a step other than the first: hours across midnight, a countdown
+        met["timestamps"] = ([22, 23, 0, 1, 2, 3] if case["nt"] % 2 else [2, 1, 0, -1, -2, -3])[:ns]
     elif case["ts"] == "epoch":
         # numeric labels with many significant digits: seconds since 1970 (integers), fractional day numbers (floats)
         met["timestamps"] = ([1709272800, 1709274600, 1709276400, 1709278200, 1709280000, 1709281800] if case["nt"] % 2 else [20240301.25, 20240301.5, 20240301.75, 20240302.0, 20240302.25, 20240302.5])[:ns]
@@ -197,6 +200,31 @@ def _compare_loaded(ds, cfg, res, x, y, zl, threed, bad):
                         bad("met", "%s[%d] is %r for a forcing without %s (expected NaN)" % (nm, s, got, nm))
                 elif got != want:
                     bad("met", "%s[%d] is %r, step value %r" % (nm, s, got, want))
+
+
+def case_relative(case):
+    """the file named by a RELATIVE path, in a working directory the caller changed to after importing the library: save
+    and load name the same file (the one in the current directory)"""
+    cfg, res, x, y, zl = build(case)
+    here = os.getcwd()
+    d = os.path.join(here, "workdir_%s" % core.case_hash(case))
+    os.makedirs(d, exist_ok=True)
+    os.chdir(d)
+    name = "verif_c18_relative_%s.nc" % core.case_hash(case)
+    try:
+        v = verify(cfg, res, x, y, zl, case["threed"], name, "relative path in a directory entered after import; case " + core.canon(case))
+        if not os.path.exists(os.path.join(d, name)):
+            v.append({"sub": "relative-path", "sig": "relative-path", "msg": "save_footprints_to_netcdf(%r) with the current directory %s did not create that file there" % (name, d)})
+    except FileNotFoundError as e:
+        v = [{"sub": "relative-path", "sig": "relative-path", "msg": "saved and loaded under the same relative name in one working directory: %s" % e}]
+    finally:
+        os.chdir(here)
+        for dd in (d, here, core.VERIF):
+            try:
+                os.unlink(os.path.join(dd, name))
+            except OSError:
+                pass
+    return {"v": v[:3], "nt": True, "n": 1}
 
 
 def case_file(case):
@@ -380,6 +408,9 @@ def run(ctx):
         "plus 16 solver-produced result sets (2-D/3-D x ustar/z0 x footprint/dispersion x precision); one file per case, every element and label compared; all cases distinct and non-trivial"
     )
     ctx.run_cases(case_file, lattice(ctx.tier), sub="synthetic")
+    ctx.run_cases(case_relative, HIST_SETS[:3], sub="relative path, working directory changed after import")
+    from vf import callerenv
+    callerenv.run(ctx, case_file, HIST_SETS[:3])
     depth = 2 if ctx.tier == "quick" else 3
     alphabet = [(p, k) for p in (0, 1) for k in range(len(HIST_SETS))]
     hist = [{"ops": [list(o) for o in h]} for d in range(2, depth + 1) for h in itertools.product(alphabet, repeat=d) if len({o[0] for o in h}) < len(h)]
